@@ -11,6 +11,15 @@ package label
 //@ loop #1
 //@   invariant [prefix_ok] 0 <= pos() && pos() <= len(name) && (forall j int :: 0 <= j && j < pos() ==> cls(code(name, j)))
 
+// C20: what a query prints is one line per label it was given (sorted; nothing merged, nothing dropped)
+//@ func PrintSorted(labels) ()
+//@   modifies printedLines
+//@   ensures [one_line_per_label] printedLines == old(printedLines) + len(labels)
+//@ loop #1
+//@   invariant [one_string_per_label_so_far] len(result) == rangeindex + 1 && printedLines == old(printedLines)
+//@ loop #2
+//@   invariant [one_line_per_string_so_far] printedLines == old(printedLines) + rangeindex + 1 && len(ranged()) == len(labels)
+
 //@ func ParseTargetLabel(packagePath, label) (l, err)
 //@   pure
 //@   reveal validName
@@ -37,6 +46,15 @@ package label
 //@ func (TargetLabel).IsTest(t) (r)
 //@   pure
 //@   ensures [suffix] r <==> hasSuffix(t.Name, "test")
+
+// C12/C17: the patterns given on the command line become exactly one parsed pattern each (nothing is added in front of or
+// behind them); no argument at all means "everything"
+//@ func ParsePatternsOrMatchAll(currentPackage, patterns) (r, err)
+//@   pure
+//@   ensures [one_pattern_per_argument] err == nil && len(patterns) > 0 ==> len(r) == len(patterns)
+//@   ensures [no_argument_means_everything] err == nil && len(patterns) == 0 ==> len(r) == 1 && r[0].prefix == "" && r[0].recursive && r[0].targetPattern == ""
+//@ loop #1
+//@   invariant [one_per_argument_so_far] len(result) == rangeindex + 1
 
 //@ func ParseTargetPattern(currentPackage, pattern) (p, err)
 //@   pure
